@@ -330,6 +330,20 @@ fn starting_theta_from_sampling_probability(sampling_probability: f32) -> u64 {
     }
 }
 
+#[cfg(feature = "verif-hooks")]
+impl ThetaHashTable {
+    pub(crate) fn verif_screen(&mut self, hash: u64) -> u64 {
+        if hash >= self.theta {
+            return 0;
+        }
+        hash
+    }
+
+    pub(crate) fn verif_lg_cur_size(&self) -> u8 {
+        self.lg_cur_size
+    }
+}
+
 #[cfg(test)]
 mod tests {
     use super::*;
